@@ -363,7 +363,7 @@ DEFAULT_FEATS = dict(
     div=False, mod=True, like=True, text=True, casts=True, bools=False, ts=False, strftime=False,
     stars=True, unqualified=0.3, nulls_order=True, case=True, redundant_parens=0.1,
     max_depth=3, expr_depth=3, where_one_side_full=False, ifnull=True, agg_distinct=True,
-    order_by_expr=True, nested_agg_in_order=False, cte_cols=False, star_except=False,
+    order_by_expr=True, nested_agg_in_order=False, cte_cols=False, star_except=False, tvl=False,
 )
 
 
@@ -378,6 +378,7 @@ class Gen:
         self.cte_n = 0
         self.prof = prof
         self.tags = set()
+        self._plain = 0   # >0 while generating a source that sits on the null-supplying side (outer_derived="plain")
 
     # -- helpers -------------------------------------------------------------------
     def new_alias(self, prefix="x"):
@@ -445,6 +446,11 @@ class Gen:
         if r < 0.93 and f["text"]:
             self.tags.add("fn:length")
             return ("fn", "LENGTH", [self.text_expr(scope, d - 1)], INT)
+        if r < 0.97 and f.get("tvl"):
+            # three-valued observer: tells NULL, FALSE and TRUE of a predicate apart in the result rows
+            self.tags.add("bool:3vl-observed")
+            b = self.bool_expr(scope, d - 1)
+            return ("case", [(("isnull", ("paren", b), False), ("lit", -1, INT)), (b, ("lit", 1, INT))], ("lit", 0, INT), INT)
         return self.int_expr(scope, d - 1)
 
     def text_expr(self, scope, d):
@@ -625,7 +631,7 @@ class Gen:
         r = self.rng.random()
         no_self = not self.f.get("self_join", True)
         used = getattr(self, "_scope_tables", set())
-        if depth > 0 and self.f["derived"] and r < 0.25:
+        if depth > 0 and self.f["derived"] and r < (0.25 if not self._plain else 0.45):
             saved = self._scope_tables
             src = self.derived_source(depth)
             self._scope_tables = saved
@@ -689,16 +695,28 @@ class Gen:
                 ctes = [c for c in ctes if c[0] != name] + [entry]
                 q.ctes.append(entry)
             self.tags.add("cte:nested" if nested else "cte")
-        q.from_ = self.source(depth, ctes)
+        od = f.get("outer_derived", True)
+        plain_mode = self._plain > 0
+        # outer_derived="plain": with some probability the whole FROM list is generated "plain" (derived tables project
+        # bare columns only), which makes it eligible for RIGHT / FULL joins that null-extend it
+        scope_plain = od == "plain" and f["joins"] and self.chance(0.4)
+        if scope_plain:
+            self._plain += 1
+            try:
+                q.from_ = self.source(depth, [])
+            finally:
+                self._plain -= 1
+        else:
+            q.from_ = self.source(depth, ctes)
         scope = [q.from_]
         had_semi = False
-        if f["joins"] and self.chance(0.45):
-            for _ in range(self.pick([1, 1, 2])):
+        if f["joins"] and (self.chance(0.45) if not scope_plain else self.chance(0.9)):
+            for _ in range(self.pick([1, 1, 2] if not scope_plain else [1, 2, 2, 3])):
                 kinds = ["JOIN", "INNER JOIN", "LEFT JOIN"]
                 if f["right_join"]:
-                    kinds.append("RIGHT JOIN")
+                    kinds += ["RIGHT JOIN"] * (3 if scope_plain else 1)
                 if f["full_join"]:
-                    kinds.append("FULL JOIN")
+                    kinds += ["FULL JOIN"] * (2 if scope_plain else 1)
                 if f["cross_join"]:
                     kinds.append("CROSS JOIN")
                 if f["semi_anti"]:
@@ -708,17 +726,27 @@ class Gen:
                     kinds = [k for k in kinds if k not in ("RIGHT JOIN", "FULL JOIN")]
                 kind = self.pick(kinds)
                 had_semi = had_semi or kind in ("SEMI JOIN", "ANTI JOIN")
-                if not f.get("outer_derived", True):
-                    # the null-supplying side of an outer join is always a base table
-                    if kind in ("RIGHT JOIN", "FULL JOIN") and any(s2.kind != "table" for s2 in scope):
+                if od is not True:
+                    # False: the null-supplying side of an outer join is always a base table
+                    # "plain": ... or a derived table whose projections are bare columns (all the way down)
+                    if kind in ("RIGHT JOIN", "FULL JOIN") and any(s2.kind != "table" for s2 in scope) and not scope_plain:
                         kind = "LEFT JOIN" if kind == "FULL JOIN" else "JOIN"
-                    if kind in ("LEFT JOIN", "FULL JOIN"):
-                        saved_d, saved_c = f["derived"], ctes
-                        f["derived"], ctes_arg = False, []
-                        try:
-                            src = self.source(depth, ctes_arg)
-                        finally:
-                            f["derived"] = saved_d
+                    if kind in ("LEFT JOIN", "FULL JOIN") or scope_plain:
+                        if od == "plain":
+                            self._plain += 1
+                            try:
+                                src = self.source(depth, [])
+                            finally:
+                                self._plain -= 1
+                            if src is not None and src.kind != "table":
+                                self.tags.add("join:null-extended-derived")
+                        else:
+                            saved_d = f["derived"]
+                            f["derived"] = False
+                            try:
+                                src = self.source(depth, [])
+                            finally:
+                                f["derived"] = saved_d
                     else:
                         src = self.source(depth, ctes)
                 else:
@@ -774,6 +802,7 @@ class Gen:
         if self.chance(0.6):
             q.where = self.bool_expr(scope, self.pick([1, 2, f["expr_depth"]]), subq_ok=depth > 0)
         grouped = f["group"] and self.chance(0.3) and not as_source or (f["group"] and as_source and self.chance(0.2))
+        grouped = grouped and not plain_mode
         nproj = self.pick([1, 2, 2, 3])
         names = []
         if grouped:
@@ -826,7 +855,13 @@ class Gen:
                     e = self.int_expr(scope, self.pick([1, 2, f["expr_depth"]]))
                 else:
                     e = self.text_expr(scope, 2)
-                if f["window"] and self.chance(0.15) and (not as_source or f.get("derived_window")):
+                if plain_mode:
+                    e = self.colref(scope, ty) or self.colref(scope, INT) or self.colref(scope, TEXT)
+                    if e is None:
+                        c2, s2 = next((c2, s2) for s2 in scope for c2 in s2.cols)
+                        e = ("col", s2.alias, c2[0], c2[1], s2.alias)
+                    ty = e[3]
+                elif f["window"] and self.chance(0.15) and (not as_source or f.get("derived_window")):
                     e, ty = self.window_expr(scope), INT
                     w = self.rng.random()
                     if w < 0.25:
@@ -836,7 +871,7 @@ class Gen:
                         e = ("fn", "COALESCE", [e, ("lit", 0, INT)], INT)
                     elif w < 0.5:
                         e = ("case", [(("bin", ">", e, ("lit", 1, INT)), ("lit", 1, INT))], ("lit", 0, INT), INT)
-                if f["subq"] and depth > 0 and self.chance(0.06):
+                if f["subq"] and depth > 0 and self.chance(0.06) and not plain_mode:
                     sq = self.scalar_subquery(scope)
                     if sq is not None:
                         e, ty = sq, INT
@@ -895,6 +930,19 @@ class Gen:
             key = self.colref(scope, INT)
             if key is not None:
                 key = ("col", key[4], key[2], key[3], key[4])
+                if f.get("alias_shadow") and self.chance(0.5):
+                    # an explicit alias that is also the name of a column in scope - preferably the name of a later,
+                    # un-aliased projection (`a AS b, b`): rewrites that wrap the query must keep the two apart
+                    idxs = [i2 for i2, (e2, a2) in enumerate(q.projs) if a2 is not None]
+                    if idxs:
+                        i2 = self.pick(idxs)
+                        later = [e2[2] for e2, a2 in q.projs[i2 + 1:] if a2 is None and e2[0] == "col"]
+                        names2 = later if later and self.chance(0.7) else [c2[0] for s2 in scope for c2 in s2.cols]
+                        new = self.pick(names2)
+                        if new not in [a2 for _, a2 in q.projs if a2]:
+                            q.projs[i2] = (q.projs[i2][0], new)
+                            q.out[i2] = (new,) + tuple(q.out[i2][1:])
+                            self.tags.add("alias:shadows-column")
                 q.distinct_on = [key]
                 q.order = [(key, self.chance(0.3), self.pick(["first", "last"]))] + [
                     (c, self.chance(0.3), self.pick(["first", "last"])) for c in allcols]
